@@ -294,6 +294,10 @@ class Gen:
                 if third.startswith(".L"):
                     temp[third] = True
                 lines.append({"l": third})
+            if rng.random() < 0.4:
+                # an alignment directive that demands nothing (no padding)
+                lines.insert(len(lines) - rng.choice([0, 1]),
+                             {"d": "balign", "n": 1})
             lines.append({"k": "bytes",
                           "hex": rng.randbytes(rng.randrange(1, 5)).hex()})
             lines.append({"l": labels_here[0]})
@@ -360,6 +364,21 @@ class Gen:
             lines.append({"l": nm})
             lines.append({"k": "bytes",
                           "hex": rng.randbytes(rng.randrange(1, 9)).hex()})
+        if self.knobs.get("align_lines") and rng.random() < 0.25:
+            # real alignment requirements inside the patch (only for checks
+            # that do not predict exact byte positions)
+            a1 = rng.choice([2, 4, 8, 16] if isa != "arm64" else [4, 8, 16])
+            at = rng.choice([0, 0, 1, len(lines)])
+            if at == 0 and rng.random() < 0.4:
+                # two requirements on one address, separated by a label
+                lines[0:0] = [{"d": "balign", "n": a1},
+                              {"l": f"pt{eid}_g"},
+                              {"d": "balign", "n": rng.choice([2, 4, 16])}]
+            elif at == len(lines):
+                lines += [{"d": "balign", "n": a1}, {"l": f"pt{eid}_g"},
+                          {"k": rng.choice(ORD_KEYS)}]
+            else:
+                lines.insert(at, {"d": "balign", "n": a1})
         for ln in lines:
             if ln.get("l") in temp:
                 ln["temp"] = True
